@@ -18,6 +18,12 @@
  *         wire   q:<name>  an:<owner>  ns:<owner>:<target>     (kind wire: the record is built
  *                without failure; n counts the requests of the ONE ares_dns_write() call; the
  *                message is parsed back without failure and its names are dumped)
+ *         parse  fn=<a|aaaa|ptr|ptr6|ns|mx|srv|txt|soa|naptr|caa> base=<dump>|<hex of a DNS message>
+ *                (kind parse: the legacy ares_parse_*_reply() function is run on the message; n
+ *                counts the requests of that ONE call; the result - every field the caller can
+ *                read: h_name, every alias, every address, the addrttl array, every member of
+ *                the reply list - is dumped, "-" for a NULL string; base= is the dump of the
+ *                run without failure, for the judge)
  * output: "<k> R <tok> <tok> ... dump=<..> end=<live blocks after destroy>"
  *         tok = "C<ok>@<cnt>/<live>" for the creation, then per op "<res>@<cnt>/<live>"
  *         (res: 1/0 success of the operation, or the status / value for arr, get), cnt =
@@ -28,6 +34,8 @@
 #include "ares_private.h"
 #include "dsa/ares_htable.h"
 #include "drv_common.h"
+#include <netdb.h>
+#include <arpa/inet.h>
 
 static long g_cnt, g_failat, g_live;
 static int  g_bits;
@@ -386,6 +394,221 @@ static void run_wire(char *ops, long n)
   ares_dns_record_destroy(rec);
 }
 
+/* ---------------- legacy reply parsers (ares_parse_*_reply) ---------------- */
+static void pstr(const char *s)
+{
+  printf("%s", s ? s : "-");
+}
+
+static void dump_hostent(const struct hostent *h)
+{
+  int  i;
+  char a[INET6_ADDRSTRLEN];
+  if (h == NULL) {
+    printf("-");
+    return;
+  }
+  printf("name:");
+  pstr(h->h_name);
+  printf(",aliases:[");
+  for (i = 0; h->h_aliases && h->h_aliases[i]; i++) {
+    printf("%s%s", i ? "," : "", h->h_aliases[i]);
+  }
+  printf("],af:%d,addrs:[", h->h_addrtype == AF_INET ? 4 : h->h_addrtype == AF_INET6 ? 6 : h->h_addrtype);
+  for (i = 0; h->h_addr_list && h->h_addr_list[i]; i++) {
+    printf("%s%s", i ? "," : "", inet_ntop(h->h_addrtype, h->h_addr_list[i], a, sizeof(a)) ? a : "?");
+  }
+  printf("]");
+}
+
+static void pbytes(const unsigned char *b, size_t len)
+{
+  size_t i;
+  if (b == NULL) {
+    printf("-");
+    return;
+  }
+  for (i = 0; i < len; i++) {
+    if (b[i] > 0x20 && b[i] < 0x7f && b[i] != '|' && b[i] != '=') {
+      putchar(b[i]);
+    } else {
+      printf("\\%02x", b[i]);
+    }
+  }
+}
+
+static void run_parse(const char *head, const char *hex, long n)
+{
+  unsigned char  msg[2048];
+  size_t         len = 0;
+  char           fn[16] = "";
+  const char    *p = strstr(head, "fn=");
+  int            st  = -1;
+  if (p == NULL || sscanf(p, "fn=%15s", fn) != 1) {
+    printf(" BADCASE");
+    return;
+  }
+  while (hex[0] && hex[1] && len < sizeof(msg)) {
+    unsigned int b;
+    if (sscanf(hex, "%2x", &b) != 1) {
+      break;
+    }
+    msg[len++] = (unsigned char)b;
+    hex += 2;
+  }
+  g_cnt    = 0;
+  g_failat = n;
+  if (strcmp(fn, "a") == 0 || strcmp(fn, "aaaa") == 0) {
+    struct hostent      *h = NULL;
+    struct ares_addrttl  t4[8];
+    struct ares_addr6ttl t6[8];
+    int                  nt = 8, i;
+    char                 a[INET6_ADDRSTRLEN];
+    int                  v6 = (fn[1] == 'a' && fn[2] == 'a');
+    memset(t4, 0, sizeof(t4));
+    memset(t6, 0, sizeof(t6));
+    st = v6 ? ares_parse_aaaa_reply(msg, (int)len, &h, t6, &nt) : ares_parse_a_reply(msg, (int)len, &h, t4, &nt);
+    g_failat = 0;
+    TOK("%d", st);
+    printf(" dump=");
+    dump_hostent(h);
+    printf(",ttls:[");
+    for (i = 0; st == ARES_SUCCESS && i < nt && i < 8; i++) {
+      if (v6) {
+        printf("%s%s/%d", i ? "," : "", inet_ntop(AF_INET6, &t6[i].ip6addr, a, sizeof(a)), t6[i].ttl);
+      } else {
+        printf("%s%s/%d", i ? "," : "", inet_ntop(AF_INET, &t4[i].ipaddr, a, sizeof(a)), t4[i].ttl);
+      }
+    }
+    printf("]");
+    if (h) {
+      ares_free_hostent(h);
+    }
+  } else if (strcmp(fn, "ptr") == 0 || strcmp(fn, "ptr6") == 0) {
+    struct hostent *h = NULL;
+    struct in_addr  a4;
+    struct ares_in6_addr a6;
+    inet_pton(AF_INET, "10.1.2.3", &a4);
+    inet_pton(AF_INET6, "fd00::8", &a6);
+    st = fn[3] ? ares_parse_ptr_reply(msg, (int)len, &a6, sizeof(a6), AF_INET6, &h)
+               : ares_parse_ptr_reply(msg, (int)len, &a4, sizeof(a4), AF_INET, &h);
+    g_failat = 0;
+    TOK("%d", st);
+    printf(" dump=");
+    dump_hostent(h);
+    if (h) {
+      ares_free_hostent(h);
+    }
+  } else if (strcmp(fn, "ns") == 0) {
+    struct hostent *h = NULL;
+    st = ares_parse_ns_reply(msg, (int)len, &h);
+    g_failat = 0;
+    TOK("%d", st);
+    printf(" dump=");
+    dump_hostent(h);
+    if (h) {
+      ares_free_hostent(h);
+    }
+  } else if (strcmp(fn, "mx") == 0) {
+    struct ares_mx_reply *r = NULL, *q;
+    st = ares_parse_mx_reply(msg, (int)len, &r);
+    g_failat = 0;
+    TOK("%d", st);
+    printf(" dump=");
+    if (r == NULL) {
+      printf("-");
+    }
+    for (q = r; q; q = q->next) {
+      pstr(q->host);
+      printf("/%u%s", q->priority, q->next ? "," : "");
+    }
+    ares_free_data(r);
+  } else if (strcmp(fn, "srv") == 0) {
+    struct ares_srv_reply *r = NULL, *q;
+    st = ares_parse_srv_reply(msg, (int)len, &r);
+    g_failat = 0;
+    TOK("%d", st);
+    printf(" dump=");
+    if (r == NULL) {
+      printf("-");
+    }
+    for (q = r; q; q = q->next) {
+      pstr(q->host);
+      printf("/%u/%u/%u%s", q->priority, q->weight, q->port, q->next ? "," : "");
+    }
+    ares_free_data(r);
+  } else if (strcmp(fn, "txt") == 0) {
+    struct ares_txt_ext *r = NULL, *q;
+    st = ares_parse_txt_reply_ext(msg, (int)len, &r);
+    g_failat = 0;
+    TOK("%d", st);
+    printf(" dump=");
+    if (r == NULL) {
+      printf("-");
+    }
+    for (q = r; q; q = q->next) {
+      pbytes(q->txt, q->length);
+      printf("/%u/%u%s", (unsigned)q->length, (unsigned)q->record_start, q->next ? "," : "");
+    }
+    ares_free_data(r);
+  } else if (strcmp(fn, "soa") == 0) {
+    struct ares_soa_reply *r = NULL;
+    st = ares_parse_soa_reply(msg, (int)len, &r);
+    g_failat = 0;
+    TOK("%d", st);
+    printf(" dump=");
+    if (r == NULL) {
+      printf("-");
+    } else {
+      pstr(r->nsname);
+      printf("/");
+      pstr(r->hostmaster);
+      printf("/%u/%u/%u/%u/%u", r->serial, r->refresh, r->retry, r->expire, r->minttl);
+    }
+    ares_free_data(r);
+  } else if (strcmp(fn, "naptr") == 0) {
+    struct ares_naptr_reply *r = NULL, *q;
+    st = ares_parse_naptr_reply(msg, (int)len, &r);
+    g_failat = 0;
+    TOK("%d", st);
+    printf(" dump=");
+    if (r == NULL) {
+      printf("-");
+    }
+    for (q = r; q; q = q->next) {
+      pstr((const char *)q->flags);
+      printf("/");
+      pstr((const char *)q->service);
+      printf("/");
+      pstr((const char *)q->regexp);
+      printf("/");
+      pstr(q->replacement);
+      printf("/%u/%u%s", q->order, q->preference, q->next ? "," : "");
+    }
+    ares_free_data(r);
+  } else if (strcmp(fn, "caa") == 0) {
+    struct ares_caa_reply *r = NULL, *q;
+    st = ares_parse_caa_reply(msg, (int)len, &r);
+    g_failat = 0;
+    TOK("%d", st);
+    printf(" dump=");
+    if (r == NULL) {
+      printf("-");
+    }
+    for (q = r; q; q = q->next) {
+      printf("%d/", q->critical);
+      pbytes(q->property, q->plength);
+      printf("/");
+      pbytes(q->value, q->length);
+      printf("%s", q->next ? "," : "");
+    }
+    ares_free_data(r);
+  } else {
+    g_failat = 0;
+    printf(" BADFN");
+  }
+}
+
 static ares_rand_state *g_rs;
 
 static void run_case(long k, char *line)
@@ -427,6 +650,8 @@ static void run_case(long k, char *line)
     run_arr(bar + 1);
   } else if (strcmp(kind, "wire") == 0) {
     run_wire(bar + 1, n);
+  } else if (strcmp(kind, "parse") == 0) {
+    run_parse(line, bar + 1, n);
   } else {
     printf(" BADKIND");
   }
